@@ -1,4 +1,5 @@
 from typing import Optional, Any, cast
+from calendar import monthrange
 from datetime import datetime
 from dateutil.relativedelta import relativedelta
 from dateutil.rrule import rrule, MONTHLY
@@ -333,10 +334,17 @@ def ruleDateDOW(ts: datetime, date: Time, dow: Time) -> Time:
 # and assume the next date+time in the future
 @rule(predicate("isDOM"))
 def ruleLatentDOM(ts: datetime, dom: Time) -> Time:
-    dm = ts + relativedelta(day=dom.day)
-    if dm <= ts:
-        dm += relativedelta(months=1)
-    return Time(year=dm.year, month=dm.month, day=dm.day)
+    # next month (starting with the current one) that has such a day and
+    # where that day is in the future; relativedelta(day=) would silently
+    # clip e.g. the 31st to the 30th
+    year, month = ts.year, ts.month
+    for _ in range(13):
+        if dom.day <= monthrange(year, month)[1]:
+            dm = ts.replace(year=year, month=month, day=dom.day)
+            if dm > ts:
+                return Time(year=dm.year, month=dm.month, day=dm.day)
+        year, month = (year, month + 1) if month < 12 else (year + 1, 1)
+    return None
 
 
 @rule(predicate("isDOW"))
